@@ -628,6 +628,22 @@ def run_c08(ctx):
                 rep.fail('octets after the declared end changed the result or the consumed length', case=s2[i], executor=w,
                          without_suffix=a[:300], with_suffix=x[:300])
     rep.notes['accepted_with_declared_length'] = nacc // 2
+    # buffers beyond 64 KiB: the declared length must still delimit the message
+    big = []
+    for _ in range(ctx.scale(3, 12)):
+        b = corpus.rand_valid_ctrl_bytes(rng, rng.randrange(1, 4)) if rng.random() < 0.7 else data_bytes(rbytes(rng, 9), True, rng.random() < 0.5)
+        for n in (65500, 65536 - len(b), 65536 - len(b) + 11, 65535, 65536, 65537, 131072 - len(b) + 5, 140000):
+            big.append((b, rbytes(rng, n)))
+    sb1 = ['DEC\t7\t%s' % b.hex() for (b, _) in big]
+    sb2 = ['DEC\t7\t%s' % (b + x).hex() for (b, x) in big]
+    rb1 = run_compare(ctx, rep, sb1, ['big_base'] * len(big), lambda c, r: r if cls(r) == 'Ok' else cls(r))
+    rb2 = run_compare(ctx, rep, sb2, ['big_suffix'] * len(big), lambda c, r: r if cls(r) == 'Ok' else cls(r))
+    for w in IMPLS:
+        for i, (b, x) in enumerate(big):
+            a, y = rb1[w][i], rb2[w][i]
+            if cls(a) == 'Ok' and (strip_rem(y) != strip_rem(a) or get_rem(y) != get_rem(a) + len(x)):
+                rep.fail('octets after the declared end (a suffix of %d octets) changed the result' % len(x), case=sb2[i][:200] + '...', executor=w,
+                         without_suffix=a[:200], with_suffix=y[:200], base_case=sb1[i][:300], suffix_len=len(x))
     # back-to-back messages from one reader
     seqs, exps = [], []
     single = []
@@ -730,8 +746,10 @@ def run_c09(ctx):
             pre.append(rbytes(rng, rng.randrange(1, 30)))
         elif c < 0.6:
             pre.append(corpus.rand_valid_ctrl_bytes(rng, rng.randrange(0, 3)))  # a prefix that itself looks like a message
-        else:
+        elif c < 0.995:
             pre.append(rbytes(rng, rng.choice([1, 2, 3, 255, 256, 1023, 1024])))
+        else:
+            pre.append(rbytes(rng, rng.choice([65534, 65535, 65536, 65537, 70000, 131073])))
     a = ['ENC\t%s\t' % v for v in vals]
     b = ['ENC\t%s\t%s' % (v, p.hex()) for v, p in zip(vals, pre)]
     ra = run_compare(ctx, rep, a, ['enc_empty'] * len(a), lambda c, r: r)
@@ -1564,7 +1582,10 @@ def run_c19(ctx):
                 rep.badcases += 1
                 continue
             rep.distinct.add(lib.sha(c))
-            if seq[i] != model[i]:
+            # purity is a statement about the implementation alone: a result that differs from the
+            # model's is a matter for the other properties, not an alarm here; only the class of
+            # non-returning outcomes (abort/hang of the worker) is compared
+            if not returns(seq[i]) and cls(seq[i]) != 'PANIC' and returns(model[i]):
                 rep.disagree(c, w, seq[i], model[i], tag='sequential')
         for l in rest:
             if l.startswith('MISMATCH'):
